@@ -9,7 +9,7 @@ using namespace vf;
 
 struct Entry { std::string name; std::string bytes; indep::Header h; };
 std::vector<Entry> g_files;
-struct Case { size_t file; uint64_t mask; };   // mask over the file's type table (bit i = type i re-labelled)
+struct Case { size_t file; uint64_t mask; int emptyExtra = 0; };   // mask over the file's type table (bit i = type i re-labelled); emptyExtra: unknown blocks with a 0-byte payload appended
 std::vector<Case> g_cases;
 
 struct Plan { int exhaustiveUpTo; int randomPerFile; int synPerVersion; int apiModels; };
@@ -88,6 +88,13 @@ void init() {
 		nif.AssignExtraData(nif.GetRootNode(), std::move(ed));
 		addFile(fmt("api-texturing:FO3:%d", i), saveNif(nif, true));
 	}
+	// boundary size: unknown blocks whose payload is empty (appended behind the last block: only the header tables change), alone and
+	// together with a re-labelled type, plus a header string that only such a block could be using
+	for (size_t fi = 0; fi < g_files.size(); fi++) {
+		g_cases.push_back({fi, 0, 1});
+		if (fi % 3 == 0) g_cases.push_back({fi, 0, 2});
+		if (fi % 4 == 1) g_cases.push_back({fi, 1ull << (fi % g_files[fi].h.types.size()), 1});
+	}
 	for (size_t fi = 0; fi < g_files.size(); fi++) {
 		size_t nt = g_files[fi].h.types.size();
 		if ((int)nt <= p.exhaustiveUpTo)
@@ -114,6 +121,13 @@ void run(size_t idx) {
 	std::string relabelled;
 	for (size_t t = 0; t < mod.types.size(); t++)
 		if (c.mask & (1ull << t)) { relabelled += mod.types[t] + ","; mod.types[t] = "Xq" + mod.types[t]; }
+	if (c.emptyExtra) {
+		uint16_t ti = (uint16_t)mod.types.size();
+		mod.types.push_back("XqEmptyMarker");
+		for (int k = 0; k < c.emptyExtra; k++) { mod.typeIndex.push_back(ti); mod.sizes.push_back(0); mod.numBlocks++; }
+		if (mod.hasStrings) { mod.strings.push_back("only an opaque block could be using this string"); mod.maxStringLen = std::max<uint32_t>(mod.maxStringLen, (uint32_t)mod.strings.back().size()); }
+		relabelled += fmt("+%d empty unknown block(s),", c.emptyExtra);
+	}
 	std::string in = indep::withHeader(e.bytes, e.h, mod);
 	indep::Header hin = indep::parse(in);
 	R_caseDesc(e.name + " unknown={" + relabelled + "}" + (idx % 4 ? std::string(" route ") + std::to_string(idx % 4) : ""));
@@ -146,7 +160,8 @@ void run(size_t idx) {
 		bool bad = false;
 		for (size_t i = 0; i < hin.numBlocks && !bad; i++) {
 			if (ho.typeOf(i) != hin.typeOf(i)) { R_viol("block-order-or-type", mn, e.name + fmt(" {%s}: block %zu is %s in the input and %s in the output", relabelled.c_str(), i, hin.typeOf(i).c_str(), ho.typeOf(i).c_str())); bad = true; break; }
-			bool unk = (c.mask >> hin.typeIndex[i]) & 1;
+			bool unk = hin.typeIndex[i] < 64 ? ((c.mask >> hin.typeIndex[i]) & 1) : false;
+			if (c.emptyExtra && hin.typeOf(i) == "XqEmptyMarker") unk = true;
 			if (!unk) continue;
 			R_stat("unknown_blocks_compared");
 			if (ho.sizes[i] != hin.sizes[i]) { R_viol("unknown-size", mn, e.name + fmt(" {%s}: unknown block %zu (%s) declared %u bytes, output declares %u", relabelled.c_str(), i, hin.typeOf(i).c_str(), hin.sizes[i], ho.sizes[i])); bad = true; break; }
@@ -163,7 +178,7 @@ void run(size_t idx) {
 															   k < ho.strings.size() ? ho.strings[k].c_str() : "<missing>", hin.strings.size(), ho.strings.size()));
 			continue;
 		}
-		R_cover(fmt("%zu/%llx/%d", c.file, (unsigned long long)c.mask, mode));
+		R_cover(fmt("%zu/%llx/%d/%d", c.file, (unsigned long long)c.mask, mode, c.emptyExtra));
 	}
 	if (idx % 997 == 0) R_sample(fmt("{\"file\":\"%s\",\"types\":%zu,\"relabelled\":\"%s\",\"blocks\":%u}", jesc(e.name).c_str(), e.h.types.size(), jesc(relabelled).c_str(), e.h.numBlocks));
 }
